@@ -5,6 +5,7 @@ import NTV.Proofs.Lemmas.PolyZProofs4
 import NTV.Proofs.Lemmas.ZassenhausMain
 import NTV.Proofs.Lemmas.NoPanicZassenhaus
 import NTV.Proofs.Lemmas.NoPanicZassenhaus2
+import NTV.Proofs.Lemmas.ZassenhausAnyBound
 /-! # C07 — factorisation over ℤ: what is proved so far.
 Irreducibility of the returned factors and completeness of the product rest on Mignotte's bound, Hensel
 uniqueness and Cantor–Zassenhaus; they are certified on every explored case by an independent oracle
@@ -597,5 +598,28 @@ example : ∀ s e, getFactorsOfSquarefree [1, 0, 0, 0, 1] s = .error e → e = "
     (NTV.Res.isPrimitive_of_list _ (fun d hd => hd 1 (by simp))) (by simp) (by simp) 3 3 (by decide +kernel) h
 example : ∀ s e, factorize [-2, -2, 4, 6, 2] s = .error e → e = "inconclusive stream" ∨ e = "inconclusive fuel" :=
   fun s e h => no_panic _ s e canon_example (by decide) h
+
+/-! ### the modulus bound the RUNNING code chose (hook `poly_z::verif::take_bounds`, op `pz.bound`)
+
+The correctness proof uses the bound in one place only: every coefficient of `lc(h')·h`, for a true factorisation
+`a = g·h·h'`, must lie in the symmetric residue range of the modulus `pe > bound`. The check evaluates the executable
+predicate `boundOk a B` (`2^deg a · ‖a‖₁ < B`) on the bound `B` the implementation reports; the first theorem says that
+this is enough, the second that the bound of the unchanged code (= the model's `coeffBound`) always passes. -/
+
+/-- any bound accepted by `boundOk` keeps every scaled true factor inside the symmetric range of a larger modulus -/
+theorem accepted_bound_suffices (a : List Int) (ha : a ≠ []) (hca : Canon a) (hn : 2 ≤ a.length)
+    (g h h' : Polynomial ℤ) (hfac : toPoly a = g * h * h') (j : ℕ) (B pe : ℤ)
+    (hB : NTV.Spec.PolyZ.boundOk a B = true) (hpe : B < pe) :
+    -(Int.tdiv pe 2) ≤ (Polynomial.C h'.leadingCoeff * h).coeff j ∧
+      (Polynomial.C h'.leadingCoeff * h).coeff j < pe - Int.tdiv pe 2 :=
+  mignotte_symmetric_range_boundOk a ha hca hn g h h' hfac j B pe hB hpe
+
+/-- the bound of the unchanged code is accepted, for every non-constant canonical input -/
+theorem model_bound_accepted (a : List Int) (ha : a ≠ []) (hca : Canon a) (hn : 2 ≤ a.length) :
+    NTV.Spec.PolyZ.boundOk a (coeffBound a (degU a)) = true :=
+  coeffBound_boundOk a ha hca hn
+
+example : NTV.Spec.PolyZ.boundOk [-1, 0, 1] (coeffBound [-1, 0, 1] 2) = true := by decide
+example : NTV.Spec.PolyZ.boundOk [-1, 0, 1] 8 = false := by decide
 
 end NTV.C07
